@@ -9,7 +9,8 @@ only for the fragment `InFragment` of the converter language (`Spec/Denotes.lean
   `Any`, `None`, the scalar converters (documented kind table `CtorYields`; anything the table does
   not cover — `Decimal`, `Fraction`, paths, `float(int ≥ 2⁵³)` — is delegated to the standard library
   through `E.call`), `Literal`, `Union`, fixed-length tuples, homogeneous sequences
-  (`list`/`tuple`/`deque`/`set`/`frozenset`), struct literals, `dict`-like mappings, conditions.
+  (`list`/`tuple`/`deque`/`set`/`frozenset`), struct literals, `dict`-like mappings, conditions,
+  `ValueOrList[T]` (one member of `T`, or — if the data denotes none — a real sequence of members).
 
 Outside the fragment (`datetime`, tagged unions, enums, delegates, patterns, dataclasses, n-d arrays,
 custom converters) `Denotes` is empty and `C01_sound_complete` says nothing; for those only
@@ -146,32 +147,40 @@ theorem C01_spelling_table :
 
 /-- hence `Sequence[T]` ≡ `tuple[T, ...]`, `MutableSequence[T]` ≡ `list[T]`, `MutableSet[T]` ≡ `set[T]`,
 `Set[T]` ≡ `frozenset[T]` — the same converter is built, provided no `custom=` handler claims either
-spelling (`H.answer … = none`, stated explicitly) -/
+spelling (`H.answer … = none`, stated explicitly) and no registered handler (`register_converter_handler`) does
+(`env.registered.findSome? … = none`: the registered handlers are asked, by head, before the collection rule) -/
 theorem C01_spelling (env : Env) (mkCls : ClassEntry → Handlers → Except BuildErr Conv) (H : Handlers)
     (arg : Option Ty) (n : Nat) (hn : n = if arg.isSome then 1 else 0) :
     (H.answer "Sequence" n = none → H.answer "tuple" n = none →
+      env.registered.findSome? (·.answer "Sequence" n) = none → env.registered.findSome? (·.answer "tuple" n) = none →
       mkTy env mkCls H (.seq "Sequence" arg) = mkTy env mkCls H (.seq "tuple" arg)) ∧
     (H.answer "MutableSequence" n = none → H.answer "list" n = none →
+      env.registered.findSome? (·.answer "MutableSequence" n) = none → env.registered.findSome? (·.answer "list" n) = none →
       mkTy env mkCls H (.seq "MutableSequence" arg) = mkTy env mkCls H (.seq "list" arg)) ∧
     (H.answer "MutableSet" n = none → H.answer "set" n = none →
+      env.registered.findSome? (·.answer "MutableSet" n) = none → env.registered.findSome? (·.answer "set" n) = none →
       mkTy env mkCls H (.seq "MutableSet" arg) = mkTy env mkCls H (.seq "set" arg)) ∧
     (H.answer "Set" n = none → H.answer "frozenset" n = none →
+      env.registered.findSome? (·.answer "Set" n) = none → env.registered.findSome? (·.answer "frozenset" n) = none →
       mkTy env mkCls H (.seq "Set" arg) = mkTy env mkCls H (.seq "frozenset" arg)) := by
   subst hn
-  exact ⟨fun h1 h2 => mkTy_seq_spelling (k := "tuple") (by decide) (by decide) arg h1 h2,
-    fun h1 h2 => mkTy_seq_spelling (k := "list") (by decide) (by decide) arg h1 h2,
-    fun h1 h2 => mkTy_seq_spelling (k := "set") (by decide) (by decide) arg h1 h2,
-    fun h1 h2 => mkTy_seq_spelling (k := "frozenset") (by decide) (by decide) arg h1 h2⟩
+  exact ⟨fun h1 h2 r1 r2 => mkTy_seq_spelling (k := "tuple") (by decide) (by decide) arg h1 h2 r1 r2,
+    fun h1 h2 r1 r2 => mkTy_seq_spelling (k := "list") (by decide) (by decide) arg h1 h2 r1 r2,
+    fun h1 h2 r1 r2 => mkTy_seq_spelling (k := "set") (by decide) (by decide) arg h1 h2 r1 r2,
+    fun h1 h2 r1 r2 => mkTy_seq_spelling (k := "frozenset") (by decide) (by decide) arg h1 h2 r1 r2⟩
 
-/-- `Mapping[K, V]` ≡ `MutableMapping[K, V]` ≡ `dict[K, V]` -/
+/-- `Mapping[K, V]` ≡ `MutableMapping[K, V]` ≡ `dict[K, V]` (no `custom=` handler and no registered handler
+claiming either spelling) -/
 theorem C01_spelling_mapping (env : Env) (mkCls : ClassEntry → Handlers → Except BuildErr Conv) (H : Handlers)
-    (args : List Ty) (hd : H.answer "dict" args.length = none) :
-    (H.answer "Mapping" args.length = none →
+    (args : List Ty) (hd : H.answer "dict" args.length = none)
+    (rd : env.registered.findSome? (·.answer "dict" args.length) = none) :
+    (H.answer "Mapping" args.length = none → env.registered.findSome? (·.answer "Mapping" args.length) = none →
       mkTy env mkCls H (.mapping "Mapping" args) = mkTy env mkCls H (.mapping "dict" args)) ∧
     (H.answer "MutableMapping" args.length = none →
+      env.registered.findSome? (·.answer "MutableMapping" args.length) = none →
       mkTy env mkCls H (.mapping "MutableMapping" args) = mkTy env mkCls H (.mapping "dict" args)) :=
-  ⟨fun h => mkTy_mapping_spelling (k := "dict") (by decide) (by decide) args h hd,
-   fun h => mkTy_mapping_spelling (k := "dict") (by decide) (by decide) args h hd⟩
+  ⟨fun h r => mkTy_mapping_spelling (k := "dict") (by decide) (by decide) args h hd r rd,
+   fun h r => mkTy_mapping_spelling (k := "dict") (by decide) (by decide) args h hd r rd⟩
 
 /-! ## Building -/
 
@@ -190,17 +199,18 @@ theorem C01_makeConverter_total (env : Env) {t : Ty} (hd : Documented t) : ∃ c
 the converter it returns accepts exactly the data that denotes a member, returning that member. -/
 theorem C01_build_denotes (hG : GuardsCover = true) (env : Env)
     (mkCls : ClassEntry → Handlers → Except BuildErr Conv) {H : Handlers} (hH : NoHandlers H)
-    {t : Ty} (hd : DocumentedCore t) :
+    (hR : RegSilentOnContainers env) {t : Ty} (hd : DocumentedCore t) :
     ∃ c, mkTy env mkCls H t = .ok c ∧ InFragment c = true ∧
       ∀ v x, convertC E c v = .value x ↔ Denotes E c v x := by
-  obtain ⟨c, hc, hF⟩ := build_fragment (env := env) (mkCls := mkCls) hH (by decide) hd
+  obtain ⟨c, hc, hF⟩ := build_fragment (env := env) (mkCls := mkCls) hH hR (by decide) hd
   exact ⟨c, hc, hF, fun v x => C01_convert_iff hG hF v x⟩
 
-theorem C01_makeConverter_denotes (hG : GuardsCover = true) (env : Env) {t : Ty} (hd : DocumentedCore t) :
+theorem C01_makeConverter_denotes (hG : GuardsCover = true) (env : Env) (hR : RegSilentOnContainers env)
+    {t : Ty} (hd : DocumentedCore t) :
     ∃ c, makeConverter env {} t = .ok c ∧ ∀ v x, convertC E c v = .value x ↔ Denotes E c v x := by
   unfold makeConverter mkF
   obtain ⟨c, hc, _, h⟩ := C01_build_denotes (E := E) hG env _ (H := {})
-    (fun head n => by simp [Handlers.answer]) hd
+    (fun head n => by simp [Handlers.answer]) hR hd
   exact ⟨c, hc, h⟩
 
 /-! ## Non-vacuity -/
@@ -220,6 +230,17 @@ example (y : Val) (h : Denotes extRaising exC01 (.list [.int 1, .none, .bool tru
 example : ∃ t, convertC extRaising exC01 (.list [.int 1, .str "x"]) = .convertError t :=
   C01_otherwise_convertError C03_guards extRaising_ok exC01 (by decide) _
     (by rintro ⟨x, hx⟩; exact nomatch (show (Outcome.interrupt : Outcome Val) = .ok x from hx))
+/-- `ValueOrList[int]` is in the fragment: `5` denotes `ValueOrList(5)` (the single-value reading),
+`[1, True]` denotes `ValueOrList([1, 1])` (the list reading), `"x"` denotes nothing -/
+example : InFragment (.vol (row "int")) = true ∧ DocumentedCore (.valueOrList (some (.scalar "int"))) :=
+  ⟨by decide, .valueOrList _ (.scalar _ (by decide))⟩
+example : Denotes extRaising (.vol (row "int")) (.int 5) (.wrap "ValueOrList:val" (.int 5)) :=
+  (C01_sound_complete C03_guards (by decide) _ _).1 (by rfl)
+example : Denotes extRaising (.vol (row "int")) (.list [.int 1, .bool true])
+    (.wrap "ValueOrList:list" (.list [.int 1, .int 1])) :=
+  (C01_sound_complete C03_guards (by decide) _ _).1 (by rfl)
+example (y : Val) : ¬ Denotes extRaising (.vol (row "int")) (.str "x") y := fun h =>
+  nomatch (show (Outcome.interrupt : Outcome Val) = .ok y from (C01_sound_complete C03_guards (by decide) _ _).2 h)
 /-- the `Documented` fragment is inhabited by real types: `dict[str, list[int] | None]` -/
 example : DocumentedCore (.mapping "dict" [.scalar "str", .union [.seq "list" (some (.scalar "int")), .scalar "NoneType"]]) := by
   refine .mapping _ _ (by decide) ?_
